@@ -274,6 +274,30 @@ def build() -> list[Sink]:
     add(Sink("name.layout_placeholder", _blank, lambda prs: prs.slide_layouts[0].placeholders[0], _set("name"), _get("name"), owner=LAYOUT,
              reader="LayoutPlaceholder.name"))
 
+    # ---- strings that are ALREADY in the document when a later call builds new XML next to them (the call may read them): the string is
+    # stored on the template object first, then the cloning call is made; the new part must come out as it does for a plain string
+    def name_then_add_slide(ph, s, scratch):
+        ph.name = s
+        prs = ph.part.package.presentation_part.presentation
+        prs.slides.add_slide(prs.slide_layouts[0])
+    add(Sink("name.layout_placeholder.then_add_slide", _blank, lambda prs: prs.slide_layouts[0].placeholders[0], name_then_add_slide, None,
+             owner="ppt/slides/slide2.xml", stored=False,
+             note="a layout placeholder is renamed, then a slide is added from the layout: the clone's XML is built by the library"))
+
+    def name_then_notes(ph, s, scratch):
+        ph.name = s
+        ph.part.package.presentation_part.presentation.slides[0].notes_slide
+    add(Sink("name.notes_master_placeholder.then_notes_slide", _blank,
+             lambda prs: next(p for p in prs.notes_master.placeholders if p.placeholder_format.type is not None and p.name.startswith("Notes")),
+             name_then_notes, None, owner=NOTES, stored=False,
+             note="a notes-master placeholder is renamed, then the first notes page is created (placeholders cloned from the master)"))
+
+    def layout_name_then_add_slide(layout, s, scratch):
+        layout.name = s
+        layout.part.package.presentation_part.presentation.slides.add_slide(layout)
+    add(Sink("name.layout.then_add_slide", _blank, lambda prs: prs.slide_layouts[1], layout_name_then_add_slide, None,
+             owner="ppt/slides/slide2.xml", stored=False, note="a layout is renamed, then a slide is added from it"))
+
     # ---- file names: the stored value is the base name of the path (ImagePart.desc / Video.filename)
     def add_picture(slide, s, scratch):
         slide.shapes.add_picture(_write(scratch, s + ".png", PNG), 0, 0)
